@@ -588,6 +588,18 @@ func (pe *PEngine) callerKeys(p *pci, key string) []string {
 		if !inScope(pkgPathOf(caller)) || e.Site == nil {
 			continue
 		}
+		if p.openSites != nil {
+			// a length precondition covers the other call sites: only the open ones need a reviewed argument
+			isOpen := false
+			for _, s := range p.openSites {
+				if s == e.Site {
+					isOpen = true
+				}
+			}
+			if !isOpen {
+				continue
+			}
+		}
 		cpf := pe.pf(caller)
 		k := strings.Replace(key, "/"+funcName(p.fn)+"/", "/"+funcName(caller)+"/", 1)
 		if k == key {
